@@ -67,11 +67,13 @@ func f64s(f float64) string {
 	return u64hex(math.Float64bits(f))
 }
 
+// f32s renders through float64: a value that was never rounded to float32 precision would
+// be hidden by Float32bits, which rounds.
 func f32s(f float32) string {
 	if f != f {
 		return "NaN"
 	}
-	return u64hex(uint64(math.Float32bits(f)))
+	return u64hex(math.Float64bits(float64(f)))
 }
 
 func c128s(c complex128) string { return "(" + f64s(real(c)) + "," + f64s(imag(c)) + ")" }
